@@ -29,10 +29,30 @@ EPS = 1e-9
 def general_cell(draw, d):
     """Well-conditioned full matrix: rotation-free construction L + small off-diagonal in all entries."""
     L = np.array([draw(nice_float(1.0, 20.0)) for _ in range(d)])
-    off = draw(hnp.arrays(np.float64, (d, d), elements=fl(-0.3, 0.3)))
+    off = draw(hnp.arrays(np.float64, (d, d), elements=fl(-0.3, 0.3), fill=st.nothing()))
     H = np.diag(L) + off * L.min()
     np.fill_diagonal(H, L)
-    return {"d": d, "kind": "general", "H": H, "lo": np.zeros(d), "origin": "zero"}
+    # structured sub-classes of "any invertible cell matrix": a shape test that looks at one triangle only, at one
+    # entry, or at orthogonality of the cell vectors must not change the contract
+    shape = draw(st.sampled_from(["full", "full", "upper", "lower-permuted", "single-entry", "rotated-ortho"]))
+    if shape == "upper":
+        H = np.triu(H)
+    elif shape == "lower-permuted":
+        ax = list(draw(st.permutations(range(d))))
+        H = np.tril(H)[ax][:, ax]
+    elif shape == "single-entry":
+        i, j = draw(st.sampled_from([(a, b) for a in range(d) for b in range(d) if a != b]))
+        v = H[i, j] if abs(H[i, j]) > 0.05 * L.min() else 0.25 * L.min()
+        H = np.diag(L)
+        H[i, j] = v
+    elif shape == "rotated-ortho":
+        a = draw(fl(0.2, 1.3))
+        R = np.eye(d)
+        i, j = draw(st.sampled_from([(a_, b_) for a_ in range(d) for b_ in range(a_ + 1, d)]))
+        R[i, i] = R[j, j] = np.cos(a)
+        R[i, j], R[j, i] = -np.sin(a), np.sin(a)
+        H = np.diag(L) @ R
+    return {"d": d, "kind": "general", "H": H, "lo": np.zeros(d), "origin": "zero", "shape": shape}
 
 
 @st.composite
@@ -129,6 +149,7 @@ def check(case):
     moved = np.any(nshift[:, ppp == 1] != 0)
     nontrivial = bool(moved and (case["cell"]["kind"] != "ortho" or not ppp.all() or np.abs(nshift).max() >= 2))
     tags = [f"d{d}", case["cell"]["kind"], "mask-partial" if not ppp.all() else "mask-full",
+            *(["general-" + case["cell"]["shape"]] if "shape" in case["cell"] else []),
             "all-|f|<=0.55" if np.abs(f).max() <= 0.55 else ("all-|f|<=1" if np.abs(f).max() <= 1 else "far-images"),
             "inside-cartesian-half-box" if np.all(np.abs(R) <= 0.5 * np.abs(np.diag(H))) else "outside-cartesian-half-box",
             "tie" if tie.any() else "no-tie", "single" if case["single"] else "batch",
